@@ -31,6 +31,7 @@ type c20Case struct {
 	Releases []c20Release  `json:"releases"`
 	Fault    *ghfake.Fault `json:"fault,omitempty"`
 	Name     string        `json:"name"`
+	Withdraw bool          `json:"withdraw,omitempty"` // the first release of the catalogue disappears from the listing after the first list request
 	Stale    string        `json:"stale,omitempty"` // what an earlier, interrupted run left next to the executable: new-file | old-file | new-dir
 	Local    string        `json:"local,omitempty"` // a local fault while installing: rename | write-new | open-new (every such system call fails)
 }
@@ -248,6 +249,9 @@ func c20Check(env *core.Env, cc core.Case) core.Verdict {
 		return core.Incon("cannot start the fake release service: %v", err)
 	}
 	defer srv.Close()
+	if c.Withdraw {
+		srv.WithdrawAfter = 1
+	}
 	switch c.Stale {
 	case "new-file":
 		_ = os.WriteFile(filepath.Join(filepath.Dir(exe), ".crs-toolchain.new"), []byte("half a download"), 0o755)
@@ -399,6 +403,11 @@ func c20Check(env *core.Env, cc core.Case) core.Verdict {
 			return core.Viol("failure-not-reported:"+strings.Fields(why)[0], "expected failure (%s): the executable is unchanged but the exit status is 0\n%s", why, ctx())
 		}
 	default:
+		v.Features = append(v.Features, fmt.Sprintf("noop:%s:exit=%d", strings.Fields(why)[0], r.Exit))
+		if idx < 0 && r.Exit == 0 && c.Fault == nil {
+			// nothing in the catalogue is for this platform: that is one of the failures the statement wants reported
+			return core.Viol("failure-not-reported:no-asset", "no release has an asset for this platform, the executable is unchanged, but the exit status is 0\n%s", ctx())
+		}
 		if changed {
 			return core.Viol("installed-not-newer", "nothing newer to install (%s) but the executable was replaced\n%s", why, ctx())
 		}
@@ -497,6 +506,10 @@ func c20Cases(env *core.Env, rng *rand.Rand) []core.Case {
 				cs = append(cs, &c20Case{Running: run, Releases: s.rels, Name: s.name + "+local-" + local, Local: local})
 			}
 		}
+	}
+	// the newest release is withdrawn between two listings of one run: whatever is installed has to be newer than what runs
+	for _, run := range []string{"v2.1.0", "v2.1.5", "v2.0.0", "dev"} {
+		cs = append(cs, &c20Case{Running: run, Releases: []c20Release{good("v2.2.0"), good("v2.1.0")}, Name: "newest-withdrawn-after-first-listing", Withdraw: true})
 	}
 	// leftovers of an earlier, interrupted run next to the executable: outcomes are as without them
 	for _, s := range byName("newer-verified", "checksum-mismatch", "checksum-missing", "archive-corrupt", "equal", "older") {
